@@ -28,6 +28,7 @@ inline std::string Keys(Rng & r, int hosts, bool full)
    if (k <= 2) return "/h" + I(r.below((uint32_t) hosts)) + "/*/" + p;
    if (k == 3) return "/*/*/" + p;
    if (k == 4) return "/*/" + I(r.below(4)) + "/" + p;     // one session id
+   if (k <= 6) return "/h" + I(r.below((uint32_t) hosts)) + "/" + I(r.below(5)) + "/" + RelPath5(r);   // entirely literal (the direct-lookup fast path)
    return p;
 }
 
@@ -64,8 +65,8 @@ inline Plan Gen(uint64_t seed)
          for (int i=0; i<nk; i++) {std::string key = Keys(wl, hosts, full); if (wl.oneIn(5)) key += "^" + Filter(wl); s += " " + Esc(key);}
          p.push_back(sendPfx + s);
       }
-      else if (k < 80) {std::string s = "routedefault"; const int nk = 1 + (int) wl.below(2); for (int i=0; i<nk; i++) s += " " + Esc(Keys(wl, hosts, false)); p.push_back(sendPfx + s);}
-      else if (k < 82) p.push_back(sendPfx + "rmroute");
+      else if (k < 80) {std::string s = "routedefault"; const int nk = 1 + (int) wl.below(2); const bool df = wl.oneIn(2); for (int i=0; i<nk; i++) {std::string key = Keys(wl, hosts, false); if (df) key += "^" + Filter(wl); s += " " + Esc(key);} p.push_back(sendPfx + s);}
+      else if (k < 82) p.push_back(sendPfx + (wl.oneIn(2) ? "rmroute" : "rmroutefilters"));
       else if (k < 86) {const uint32_t how = wl.below(10); if (how < 6) p.push_back("close " + I(c)); else if (how < 9) p.push_back("cut " + I(c) + " " + U(wl.below(3000))); else p.push_back("reset " + I(c)); g.up[c] = false;}
       else if (k < 90) {const int n = (int) wl.below((uint32_t) clients); if (!g.up[n]) GenConnect(p, g, cfg, fl, n, faultFree, 35);}
       else if ((k < 94)&&(!faultFree))
